@@ -2,16 +2,19 @@
 # seedtest.sh <patch.diff> <check id>...   — apply a seeded change to /repo, run the quick checks, revert.
 # With BASELINE=1 also runs the repository's own test suite on the changed tree first.
 set -u
+# VERIF_REPO / VERIF_ROOT select a sandbox copy made by tools/sandbox.sh (default: /repo and /verif)
 patch="$1"; shift
-cd /repo || exit 3
-if [ -n "$(git status --porcelain)" ]; then echo "/repo not clean"; exit 3; fi
+REPO="${VERIF_REPO:-/repo}"
+VROOT="${VERIF_ROOT:-/verif}"
+cd "$REPO" || exit 3
+if [ -n "$(git status --porcelain)" ]; then echo "$REPO not clean"; exit 3; fi
 git apply "$patch" || { echo "patch does not apply"; exit 3; }
-trap 'git -C /repo checkout -- . ; git -C /repo clean -fdq -- minijinja minijinja-autoreload minijinja-contrib 2>/dev/null' EXIT
+trap 'git -C "$REPO" checkout -- . ; git -C "$REPO" clean -fdq -- minijinja minijinja-autoreload minijinja-contrib 2>/dev/null' EXIT
 if [ "${BASELINE:-0}" = 1 ]; then
   /verif/tools/repo_tests.sh 2>&1 | tail -2
 fi
 for id in "$@"; do
-  out=$(cd /verif && VERIF_TIER=${TIER:-quick} ./check "$id" "${TIER:-quick}" 2>&1)
+  out=$(cd "$VROOT" && VERIF_TIER=${TIER:-quick} ./check "$id" "${TIER:-quick}" 2>&1)
   rc=$?
   echo "== $id exit $rc"
   echo "$out" | grep -E "^(VIOLATION|OK|signature|KNOWN-FINDING|INCONCLUSIVE)" | cut -c1-260 | head -8
